@@ -541,11 +541,15 @@ func setup(r *mon.Run) {
 		"(status code 1-16 (+42 on gRPC), message class, 0-2 details, custom metadata class incl. -bin and multi-valued keys, 100 KiB payloads) on a gRPC and an HTTP front. " +
 		"Think-time scripts (client-streaming / bidi, gRPC front and streamed h2c body): the plan travels in the metadata so the back-end can fail / finish / reply before reading anything, " +
 		"after r messages or after the half-close, while the client pauses 20/100/300 ms after opening the stream, between sends and before the half-close (workload only, never a verdict). " +
+		"HTTP/1 scripts also carry connection header classes (Connection: keep-alive / close / names another field, Keep-Alive, Proxy-Connection) over a real connection and in-process: " +
+		"the back-end must see none of them and the call must end as the direct one. WebSocket front (JSON text frames, server-ended plans, all three streaming shapes): messages and replies " +
+		"compared with the direct call, the close code and reason with the same script on a locally registered handler. " +
 		"Each script runs twice (direct / through larking); distinct = front x shape x plan family x message count x outcome x half-close-seen x metadata class."
 	r.Floor = 40
 	r.Assume("grpc-go client/server (direct run) define the reference behaviour of a call script")
 	r.Assume("google.rpc.Code -> HTTP status table of google/rpc/code.proto (CANCELLED: 499 or 408) for HTTP fronts; for failures after the first reply only the replies are compared on HTTP")
 	r.Assume("response headers/trailers and transport-level metadata are not compared (not part of the statement)")
+	r.Assume("WebSocket: a client close frame is an abort on this transport (locally registered handlers receive an error, not io.EOF), so only server-ended plans are used; the close frame is compared with a locally registered handler's")
 }
 
 func finish(r *mon.Run, e *Env) {
